@@ -96,6 +96,8 @@ class _Elastic(_IModel, ABC):
         ), f"With dim = {self.dim} array must be a {shape} matrix"
         self.__C = array
         self.__sqrt_C = None  # dont remove
+        # the stiffness can be assigned directly: the simulations using the law must rebuild their matrices
+        self._Notify("The model has been modified.")
 
     @property
     def isHeterogeneous(self) -> bool:
@@ -123,6 +125,7 @@ class _Elastic(_IModel, ABC):
         ), f"With dim = {self.dim} array must be a {shape} matrix"
         self.__S = array
         self.__sqrt_S = None  # dont remove
+        self._Notify("The model has been modified.")
 
     def Calc_Epsilon_e_pg(
         self,
